@@ -48,7 +48,27 @@ thread_local! {
 static HOOK_CALLS: AtomicUsize = AtomicUsize::new(0);
 static HOOK_GEN: AtomicUsize = AtomicUsize::new(0);
 
+/// `helper_thread`: user code panics on a HELPER thread and the payload is re-raised on the runner's thread (what
+/// `thread::spawn(..).join()` + `resume_unwind`, `spawn_blocking` or `thread::scope` do): the process panic hook is invoked on
+/// that other thread, and must stay silent there too while the run is in progress.
+static HELPER: std::sync::atomic::AtomicBool = std::sync::atomic::AtomicBool::new(false);
+
 fn do_panic(p: u64) -> ! {
+    if HELPER.load(Ordering::SeqCst) {
+        let r = std::thread::Builder::new()
+            .name("step-helper".into())
+            .spawn(move || raise(p))
+            .expect("helper thread")
+            .join();
+        match r {
+            Err(e) => panic::resume_unwind(e),
+            Ok(never) => never,
+        }
+    }
+    raise(p)
+}
+
+fn raise(p: u64) -> ! {
     match p % 3 {
         0 => panic::panic_any(format!("panic#{p}")),
         1 => {
@@ -150,6 +170,7 @@ fn collect<R: cucumber::Runner<AW>>(r: R, f: gherkin::Feature, cli: R::Cli) -> V
 pub fn run(case: &Value) -> Value {
     // scripted payloads have a kind (String / &'static str / u32) that must survive the trip into the events
     events::STRICT_KINDS.with(|k| k.set(true));
+    HELPER.store(case["helper_thread"].as_bool().unwrap_or(false), Ordering::SeqCst);
     ST.with(|s| {
         *s.borrow_mut() = State {
             attempts: case["attempts"].as_array().cloned().unwrap_or_default(),
